@@ -1119,6 +1119,9 @@ func isLocalTerm(c *Ctx, f *ssa.Function, t *core.Term, driver string) bool {
 // checkAttachOrder is R12.5 / R08.3.
 func checkAttachOrder(c *Ctx, rule string) {
 	R := c.R
+	if c.P.GOOS != "linux" {
+		return // classic-BPF attach exists on linux only (attach_nolinux.go is a stub)
+	}
 	f := c.P.Func("packets.SetBPFAndDrain")
 	if f == nil {
 		R.Fail(rule, "packets.SetBPFAndDrain#anchor", 0, "", "anchor packets.SetBPFAndDrain no longer resolves")
